@@ -13,6 +13,7 @@ look at.
 from __future__ import annotations
 
 import asyncio
+import contextvars
 import os
 import re
 
@@ -21,8 +22,22 @@ from streamflow.deployment.connector import connector_classes
 from vf.harness.connectors import VfShellRemoteConnector
 
 
+# which transfer of a concurrent group the current task works for (tasks created inside transfer_data
+# inherit a copy of the context, so the connector can tell whose stream it is asked to open)
+XFER: contextvars.ContextVar = contextvars.ContextVar("c22_xfer", default=None)
+
+
+async def _held(coro, xid, kind):
+    """Emulates a slow link: the stream's process is only started once the gate lets this transfer go."""
+    gate = C22Shell.GATE
+    if gate is not None:
+        await gate(xid, kind)
+    return await coro
+
+
 class C22Shell(VfShellRemoteConnector):
     LOG: list[tuple[str, str]] = []  # chronological, shared by all instances (one event loop thread)
+    GATE = None  # async callable(transfer id, "reader"|"writer") installed by the concurrent class of C22
 
     def __init__(self, deployment_name, config_dir, locations=None, slots=8, transferBufferSize=65536):
         super().__init__(deployment_name, config_dir, locations, slots, transferBufferSize)
@@ -37,11 +52,17 @@ class C22Shell(VfShellRemoteConnector):
 
     async def get_stream_reader(self, command, location):
         self.cmd_log.append(("reader", " ".join(command)))
-        return await super().get_stream_reader(command, location)
+        mgr = await super().get_stream_reader(command, location)
+        if C22Shell.GATE is not None:
+            mgr.coro = _held(mgr.coro, XFER.get(), "reader")
+        return mgr
 
     async def get_stream_writer(self, command, location):
         self.cmd_log.append(("writer", " ".join(command)))
-        return await super().get_stream_writer(command, location)
+        mgr = await super().get_stream_writer(command, location)
+        if C22Shell.GATE is not None:
+            mgr.coro = _held(mgr.coro, XFER.get(), "writer")
+        return mgr
 
 
 connector_classes["c22-shell"] = C22Shell
